@@ -43,17 +43,20 @@ func envOr(k, d string) string {
 // harness discovery
 
 type HarnessSpec struct {
-	Name     string
-	Props    []string
-	Tiers    []string
-	Steps    int
-	Workers  int
-	Switches int
-	Policy   Policy
-	Replay   string // native | symbolic
-	Bounds   []string
-	TimeoutS int
-	QueryMs  int
+	Name  string
+	Props []string
+	Tiers []string
+	// passing paths are not sampled for the native translator validation (the
+	// harness says why; counterexamples are still replayed natively)
+	NoSelftest bool
+	Steps      int
+	Workers    int
+	Switches   int
+	Policy     Policy
+	Replay     string // native | symbolic
+	Bounds     []string
+	TimeoutS   int
+	QueryMs    int
 }
 
 type Group struct {
@@ -224,6 +227,8 @@ func discover() (map[string]*Group, error) {
 					hs.Policy.RuntimePanics = v
 				case "deadlock":
 					hs.Policy.Deadlock = v
+				case "selftest":
+					hs.NoSelftest = v == "off"
 				case "replay":
 					hs.Replay = v
 				case "bounds":
@@ -841,7 +846,7 @@ func cmdRun(args []string) int {
 				to = er.hs.TimeoutS
 			}
 			agree := 8
-			if *noSelftest || er.hs.Replay == "symbolic" {
+			if *noSelftest || er.hs.Replay == "symbolic" || er.hs.NoSelftest {
 				agree = 0
 			}
 			opts := RunOpts{Agree: agree, Workers: nw, MaxSteps: er.hs.Steps, Tier: tierN, Verbose: *verbose, SolverBin: solverCmd(qms),
